@@ -62,6 +62,7 @@ inductive AskB where
   | sizeGtPtr            -- `size_of::<T>() > size_of::<*mut T>()`
   | expired              -- `Instant::now() > deadline`
   | dataIsNone           -- `data.is_none()`
+  | unknown (text : String)  -- a condition the translator has no rule for
   deriving DecidableEq, Repr, Inhabited
 
 /-- Questions answered with a message. -/
